@@ -87,6 +87,19 @@ fn execute_block<C: CellType, const LIMITED: bool>(
     Some(true)
 }
 
+#[cfg(feature = "verif")]
+impl<C: CellType> IrInterpreter<C> {
+    /// Verification hook: build an interpreter directly from the given IR.
+    pub fn verif_from_ir(program: Program<C>) -> Self {
+        IrInterpreter { program }
+    }
+
+    /// Verification hook: access the IR that is executed.
+    pub fn verif_ir(&self) -> &Program<C> {
+        &self.program
+    }
+}
+
 impl<C: CellType> Executor<'_, C> for IrInterpreter<C> {
     fn create(code: &str, opt: u32) -> Result<Self, Error> {
         let mut program = Program::<C>::parse(code)?;
